@@ -9,6 +9,7 @@
 import SettlusModel.Proofs.RecWf
 import SettlusModel.Properties.C12
 import SettlusModel.Properties.C10
+import SettlusModel.Proofs.Dec
 namespace Settlus.C01
 open Settlus
 
@@ -219,5 +220,14 @@ example :
     resolvedIds s.log 1 = [1, 0] ∧ s.bank (.treasury 1) "uusdc".toList = 60 ∧ s.bank (.acct (.a 3)) "uusdc".toList = 40 ∧
     debits s.log 1 "uusdc".toList = 40 ∧ deposits s.log 1 "uusdc".toList = 100 ∧ s.st.recs 1 = [] ∧ (paysFor s.log 1 0).length = 1 := by
   decide +kernel
+
+
+/-! ### the split the code computes -/
+
+/-- the two expressions of `tryPayout`, translated from the source on every run (`Amount.Quo(n)` and `Amount.Mul(w).Quo(W)` on
+`math.Int`), are the model's `share` -/
+theorem share_is_the_code (amount : Int) (n W w : Nat) :
+    share amount n W w = if W = 0 then GenDec.shareEqual amount (n : Int) else GenDec.shareWeighted amount (w : Int) (W : Int) :=
+  share_translated amount n W w
 
 end Settlus.C01
